@@ -20,6 +20,8 @@ const VARIANTS = {
     ok2: 'import * as B from "./b";\nexport type A = { x: number, b: B.B, extra?: boolean };',
     unres: 'import * as B from "./b";\nexport type A = { x: B.Missing };',
     missingfile: 'import { Z } from "./zzz";\nexport type A = { z: Z };',
+    // the same file reached through an inline import type (resolved while the type is extracted, not while the module is bound)
+    importtype: 'export type A = { z: import("./zzz").Z };',
     broken: "export type A = { x: ;",
     empty: "/* commented out: export type A = {} */\n",
   },
@@ -35,6 +37,7 @@ const VARIANTS = {
     absent: null,
     ok1: "export type Z = { z: 1 };",
     ok2: "export type Z = { z: 2 };",
+    broken: "export type Z = {{",
   },
 };
 const FILES = Object.keys(VARIANTS);
@@ -90,11 +93,14 @@ export async function run() {
         } else ops.push({ op: "bundle" });
       }
       ops.push({ op: "fingerprint" });
+      // probe: one more rebuild after the state has been read. States that the key merges (equal contents, equal cache)
+      // must have equal futures; the probe checks the nearest future of EVERY history, also of those whose state was seen before
+      ops.push({ op: "bundle" });
       const r = await pool.request({ files: fsText(initialFs()), settings: DEFAULT_SETTINGS, ops });
       if (r.dead || r.panic) return { fsv, crash: r.dead ? "dead:" + r.reason : "panic:" + r.panic.site + ":" + r.panic.msg };
       const bundles = r.obs.filter((o) => o.op === "bundle");
       const fp = r.obs.find((o) => o.op === "fingerprint");
-      return { fsv, ops, fingerprint: JSON.stringify(fp.cache), last: hist.length && hist[hist.length - 1].kind === "rebuild" ? normalise(bundles[bundles.length - 1]) : null };
+      return { fsv, opsHist: ops.slice(0, -2), fingerprint: JSON.stringify(fp.cache), probe: normalise(bundles[bundles.length - 1]), last: hist.length && hist[hist.length - 1].kind === "rebuild" ? normalise(bundles[bundles.length - 2]) : null };
     };
     const seen = new Map(); // key -> history
     const start = await replay([]);
@@ -119,17 +125,23 @@ export async function run() {
                 rep.violation(`C14 session crashed : ${st.crash.slice(0, 60)}`, `history ${htxt.join(" ; ")}: ${st.crash}`, { engine: "E-rs", history: htxt });
                 return;
               }
-              if (a.kind === "rebuild") {
+              {
+                // every history is followed by a rebuild (the probe, or the rebuild it ends with)
                 stats.rebuilds++;
+                const probing = a.kind !== "rebuild";
+                const hR = probing ? [...h2, { kind: "rebuild" }] : h2; // the history the verdict is about
+                const htxtR = hR.map(actText);
+                const lastR = probing ? st.probe : st.last;
+                const opsR = probing ? [...st.opsHist, { op: "bundle" }] : st.opsHist;
                 const f = await fresh(st.fsv);
                 if (f.crash) {
                   rep.violation(`C14 fresh session crashed : ${f.crash.slice(0, 60)}`, `contents ${JSON.stringify(st.fsv)}: ${f.crash}`, { engine: "E-rs", contents: st.fsv });
-                } else if (f.text !== st.last) {
+                } else if (f.text !== lastR) {
                   const fo = JSON.parse(f.text),
-                    so = JSON.parse(st.last);
+                    so = JSON.parse(lastR);
                   const kind = `${so.code != null ? "code" : "diagnostics"} after the history, ${fo.code != null ? "code" : "diagnostics"} in a fresh process`;
                   // identity: shortest history reduced to variant kinds of the updates that matter (BFS gives a shortest one first)
-                  rep.violation(`C14 rebuild differs from a fresh process : ${kind} : ${h2.map((x) => (x.kind === "rebuild" ? "rebuild" : x.f.replace(".ts", "") + ":" + x.v.replace(/[12]$/, ""))).join(" ; ")}`, `after ${htxt.join(" ; ")} the session answers ${st.last.slice(0, 160)} but a fresh process on the same contents answers ${f.text.slice(0, 160)}`, { engine: "E-rs", history: htxt, contents: st.fsv, initial_files: fsText(initialFs()), ops: st.ops.slice(0, -1), current_files: fsText(st.fsv), session: so, fresh: fo });
+                  rep.violation(`C14 rebuild differs from a fresh process : ${kind} : ${hR.map((x) => (x.kind === "rebuild" ? "rebuild" : x.f.replace(".ts", "") + ":" + x.v.replace(/[12]$/, ""))).join(" ; ")}`, `after ${htxtR.join(" ; ")} the session answers ${lastR.slice(0, 160)} but a fresh process on the same contents answers ${f.text.slice(0, 160)}`, { engine: "E-rs", history: htxtR, contents: st.fsv, initial_files: fsText(initialFs()), ops: opsR, current_files: fsText(st.fsv), session: so, fresh: fo });
                 } else outcomes.add(sha(f.text));
               }
               const key = JSON.stringify([st.fsv, st.fingerprint]);
@@ -162,7 +174,7 @@ export async function run() {
       traces_validated_against_impl: stats.replays,
       samples,
       exhaustive: !!stats.closed,
-      explanation: "project entry.ts -> a.ts (named import) -> b.ts (namespace import), plus zzz.ts which does not exist at first and is imported only by one variant of a.ts (creating it is an update from nothing); a static barrel bar.ts (export * from b.ts) through which one entry variant takes a value; contents per file: two valid variants (the first ones carry JSDoc on a type and on a property, which the generated code must keep on every rebuild), a value through the barrel, unresolvable reference, import of the not-yet-existing file, syntactically broken, empty/comment-only (6+6+4+2 update actions + rebuild); BFS over histories, canonical state = (content-variant vector, cache fingerprint = per cached file a hash of the cached module's source text, read through the hook), every state reached by replaying its shortest history in a fresh session; invariant at every rebuild transition: (code | diagnostics, both entry points) equal those of a fresh session serving the current contents. " + (stats.closed ? "closure reached" : `depth bound ${stats.depth} completed (state cap ${STATECAP})`),
+      explanation: "project entry.ts -> a.ts (named import) -> b.ts (namespace import), plus zzz.ts which does not exist at first and is imported only by one variant of a.ts (creating it is an update from nothing); a static barrel bar.ts (export * from b.ts) through which one entry variant takes a value; contents per file: two valid variants (the first ones carry JSDoc on a type and on a property, which the generated code must keep on every rebuild), a value through the barrel, unresolvable reference, import of the not-yet-existing file, syntactically broken, empty/comment-only (6+7+4+3 update actions + rebuild; the file that is created later can also be created with text that does not parse, and can be reached through an inline import type); BFS over histories, canonical state = (content-variant vector, cache fingerprint = per cached file a hash of the cached module's source text, read through the hook), every state reached by replaying its shortest history in a fresh session; invariant at every rebuild transition: (code | diagnostics, both entry points) equal those of a fresh session serving the current contents. " + (stats.closed ? "closure reached" : `depth bound ${stats.depth} completed (state cap ${STATECAP})`),
       depth_completed: stats.depth,
       depth_max_history: stats.maxDepth,
       rebuild_transitions_checked: stats.rebuilds,
